@@ -383,6 +383,24 @@ func c14RandomInst(e *env) {
 			}
 			rf, emptyZone = 1, false
 		}
+		// descriptors written by old lifecycler versions may hold UNSORTED token lists (consul/etcd/in-memory stores
+		// do not normalise them); the ring sorts them on load (Desc.GetTokens / getTokensByZone)
+		if r.chance(1, 4) {
+			for id, i := range d.Ingesters {
+				if len(i.Tokens) >= 2 && r.chance(2, 3) {
+					toks := append([]uint32(nil), i.Tokens...)
+					for a := len(toks) - 1; a > 0; a-- {
+						b := r.intn(a + 1)
+						toks[a], toks[b] = toks[b], toks[a]
+					}
+					if r.chance(1, 2) { // descending: the worst case for a merge that assumes sorted inputs
+						sort.Slice(toks, func(a, b int) bool { return toks[a] > toks[b] })
+					}
+					i.Tokens = toks
+					d.Ingesters[id] = i
+				}
+			}
+		}
 		ids := c14SortedIDs(d)
 		if len(ids) > 4 {
 			for i := len(ids) - 1; i > 0; i-- {
